@@ -447,7 +447,8 @@ class FnFacts:
                     for rn in names:
                         if rn == "<reraise>":
                             return False, "handler re-raises %s unchanged" % eff
-                        full = self.scope.repo.exc_fullname(self.fn.module, rn)
+                        full = self.scope.repo.exc_fullname(
+                            getattr(parent, "_module", self.fn.module), rn)
                         if full not in allowed:
                             built = self._built_by_helper(rn)
                             if built is None:
@@ -481,8 +482,64 @@ class FnFacts:
                 if isinstance(st, ast.Try) and any(
                         isinstance(x, ast.Expr) and isinstance(
                             x.value, ast.Yield) for x in st.body):
-                    return st
+                    return self._specialised_try(st, h, c)
         return None
+
+    def _specialised_try(self, tr, h, call):
+        """The context manager's try as this with-statement runs it: the
+        handler filters with the manager's parameters replaced by the call's
+        arguments and `self.<attr>` by the class attribute of the calling
+        class; `*tuple` elements are flattened."""
+        import copy as _cp
+        a = h.node.args
+        names = [x.arg for x in a.posonlyargs + a.args]
+        if names and names[0] in ("self", "cls") and isinstance(
+                call.func, ast.Attribute):
+            names = names[1:]
+        allp = [x.arg for x in a.posonlyargs + a.args]
+        bind = dict(zip(allp[len(allp) - len(a.defaults):], a.defaults))
+        bind.update({x.arg: d for x, d in zip(a.kwonlyargs, a.kw_defaults)
+                     if d is not None})
+        bind.update(dict(zip(names, call.args)))
+        bind.update({k.arg: k.value for k in call.keywords if k.arg})
+        repo, cls = self.scope.repo, self.fn.cls
+
+        def value_of(e, depth=0):
+            """Elements of a tuple-valued filter expression."""
+            if isinstance(e, ast.Starred):
+                return value_of(e.value, depth)
+            if isinstance(e, (ast.Tuple, ast.List)):
+                out = []
+                for x in e.elts:
+                    if isinstance(x, ast.Starred):
+                        out.extend(value_of(x.value, depth))
+                    else:
+                        out.append(x)
+                return out
+            if depth < 3 and isinstance(e, ast.Name) and e.id in bind:
+                return value_of(bind[e.id], depth + 1)
+            if depth < 3 and isinstance(e, ast.Attribute) and \
+                    isinstance(e.value, ast.Name) and \
+                    e.value.id in ("self", "cls") and cls is not None:
+                for cc in repo.mro(cls):
+                    if e.attr in cc.class_attrs:
+                        return value_of(cc.class_attrs[e.attr], depth + 1)
+            if depth < 3 and isinstance(e, ast.Name):
+                v = self.fn.module.const(e.id)
+                if isinstance(v, (ast.Tuple, ast.List)):
+                    return value_of(v, depth + 1)
+            return [e]
+        tr2 = _cp.copy(tr)
+        tr2.handlers = []
+        for hd in tr.handlers:
+            h2 = _cp.copy(hd)
+            if hd.type is not None:
+                elts = value_of(hd.type)
+                h2.type = ast.Tuple(elts=[_cp.deepcopy(x) for x in elts],
+                                    ctx=ast.Load())
+            tr2.handlers.append(h2)
+        tr2._module = h.module      # names in the handler bodies
+        return tr2
 
     def _built_by_helper(self, name):
         """Exception classes a module-level helper `name(...)` returns, or
@@ -676,10 +733,33 @@ class FnFacts:
                 if d.value is not None and isinstance(d.value, ast.Subscript):
                     return self.buffer_discharge(site_node, d.value, depth + 1)
             return False, "no length guard on `%s`" % operand.id
+        def _self_attr(e):
+            return isinstance(e, ast.Attribute) and \
+                isinstance(e.value, ast.Name) and e.value.id == "self"
+        # an attribute this very function has just set from a plain name
+        # (`self.buf = buf` in the constructor) is that name here
+        base = operand.value if isinstance(operand, ast.Subscript) else operand
+        if _self_attr(base) and depth < 6:
+            srcs = [st.value for st in stmts_of(self.fn.node)
+                    if isinstance(st, ast.Assign) and
+                    isinstance(st.value, ast.Name) and any(
+                        _self_attr(t) and t.attr == base.attr
+                        for t in st.targets)]
+            if len(srcs) == 1:
+                import copy as _cp
+                nm = ast.copy_location(ast.Name(id=srcs[0].id,
+                                                ctx=ast.Load()), base)
+                if isinstance(operand, ast.Subscript):
+                    op2 = _cp.copy(operand)
+                    op2.value = nm
+                else:
+                    op2 = nm
+                return self.buffer_discharge(site_node, op2, depth + 1)
         if isinstance(operand, ast.Subscript) and \
                 isinstance(operand.slice, ast.Slice) and \
-                isinstance(operand.value, ast.Name):
-            b = operand.value.id
+                (isinstance(operand.value, ast.Name) or
+                 _self_attr(operand.value)):
+            b = norm(operand.value)
             sl = operand.slice
             bound_names = set()
             for x in (sl.lower, sl.upper):
@@ -692,8 +772,19 @@ class FnFacts:
             g = self.len_guard(site_node, b, need_names=bound_names)
             if g is not None:
                 return True, "D-guard on slice bounds: `%s`" % norm(g.test)
+            if _self_attr(operand.value):
+                return None, ("`%s` is held by the object: a guard in the "
+                              "code that built the object is not followed"
+                              % b)
             return False, ("no guard relates len(%s) to the slice bounds %s"
                            % (b, sorted(bound_names)))
+        if _self_attr(operand):
+            g = self.len_guard(site_node, norm(operand))
+            if g is not None:
+                return True, "D-guard: `%s`" % norm(g.test)
+            return None, ("`%s` is held by the object: a guard in the code "
+                          "that built the object is not followed"
+                          % norm(operand))
         return False, "unrecognised buffer expression %s" % norm(operand)
 
     def _dsize(self, sl):
@@ -1047,6 +1138,10 @@ def decoder_scope(repo, col, which="chunks"):
                 continue
             if not ok and kind in ("unpack", "frombuffer"):
                 ok2, how2 = ff.buffer_discharge(node, operand)
+                if ok2 is None:
+                    col.add("%s.%s" % (rule, kind), fn, text, True, how2,
+                            node=node, undecided=True)
+                    continue
                 if ok2:
                     ok, how = True, how2
                 else:
